@@ -152,3 +152,36 @@ func Harness_C10_call_returns_and_frees_drive() {
 	vm.Cover("C10.call_fails", err != nil)
 	vm.Cover("C10.call_succeeds", err == nil)
 }
+
+// Harness_C10_initialize_returns_and_frees_drive: opening an instance over an existing tape without an index (the
+// rebuild on open), with at most one injected fault (drive, index store) or a tape whose last record is torn: the
+// call returns, nothing panics, every lock is free afterwards and the next calls complete.
+func Harness_C10_initialize_returns_and_frees_drive() {
+	v := verifNewFS(config.PipeConfig{}, false, true)
+	v.Env.AddTapeEntry("/", tar.TypeDir, 0)
+	v.Env.AddTapeEntry("/d", tar.TypeDir, 0)
+	last := v.Env.AddTapeEntry("/d/g", tar.TypeReg, 700)
+	_ = last
+	t := v.Env.Tape
+	switch vm.Choice("tail", 3) {
+	case 1: // the last record is cut inside its content
+		lm := t.LastMember()
+		t.CutAt(lm.Start + 512*lm.HBlocks + []int64{0, 100, 512, 699}[vm.Choice("cutAt", 4)])
+	case 2: // ... or inside its header blocks
+		lm := t.LastMember()
+		t.CutAt(lm.Start + []int64{1, 512, 1024, 1535}[vm.Choice("cutAt", 4)])
+	}
+	if vm.Bool("faulty") {
+		vm.FaultBudget = 1
+	}
+	_, err := v.FS.Initialize("/", os.ModePerm)
+	vm.Assert("C10.initialize_frees_all_locks", v.Env.LocksFree())
+	vm.FaultBudget = 0
+	// whatever Initialize answered, the instance must not be wedged: another Initialize, a lookup and a write return
+	_, _ = v.FS.Initialize("/", os.ModePerm)
+	_, _ = v.FS.Stat("/d")
+	_ = v.FS.Mkdir("/probe", 0o755)
+	vm.Assert("C10.calls_after_initialize_complete_and_free", v.Env.LocksFree())
+	vm.Cover("C10.initialize_fails", err != nil)
+	vm.Cover("C10.initialize_succeeds", err == nil)
+}
